@@ -158,6 +158,15 @@ def _symbol_map(ctx, fn, sf, df, label, maps=None):
     from .sem import canon_expr, single_defs, _Inline
     import copy
     dicts = [d for d in own_nodes(fn) if isinstance(d, ast.Dict)]
+    mod_tbl = None
+    if not dicts:
+        # the table kept as a module-level constant: the dict the lookup `.get(byte)` is made on
+        for c in own_nodes(fn):
+            if isinstance(c, ast.Call) and isinstance(c.func, ast.Attribute) and c.func.attr == "get" and isinstance(c.func.value, ast.Name):
+                b_ = fn._module.env.get(c.func.value.id)
+                if b_ and b_[0] == "assign" and isinstance(b_[1], ast.Dict):
+                    dicts.append(b_[1])
+                    mod_tbl = c.func.value.id
     if len(dicts) != 1:
         ctx.ob("B1", fn, f"{label} converter has one symbol table", False, f"{len(dicts)} dict literals", inst=f"{label}-symbols")
         return
@@ -192,7 +201,7 @@ def _symbol_map(ctx, fn, sf, df, label, maps=None):
     ok = seen == {s[0] for s in SYMBOLS}
     ctx.ob("B1", d, f"{label} converter covers the five symbols", ok, f"{sorted(seen)}", inst=f"{label}-symbols")
     # lookup is by the byte, default None -> raise
-    tbl = None
+    tbl = mod_tbl
     for a in own_nodes(fn):
         if isinstance(a, (ast.Assign, ast.AnnAssign)) and a.value is d:
             t = a.targets[0] if isinstance(a, ast.Assign) else a.target
